@@ -151,7 +151,7 @@ def parse_impl(s):
     """'R W n/d h' -> ('R','W',n,d,h);  'I k' -> ('I',k);  'CRASH s' -> ('CRASH', s); else ('?', s)"""
     t = s.split()
     try:
-        if t and t[0] == "R" and len(t) == 4:
+        if t and t[0] == "R" and len(t) >= 4 and all(x.startswith("!") for x in t[4:]):
             n, d = t[2].split("/")
             return ("R", t[1], int(n), int(d), int(t[3]))
         if t and t[0] == "I" and len(t) == 2:
@@ -161,6 +161,11 @@ def parse_impl(s):
     except ValueError:
         pass
     return ("?", s)
+
+
+def impl_flags(s):
+    """deep-observation flags of the harness: !wf, !stale(v), !operandA, !operandB"""
+    return [x for x in s.split() if x.startswith("!")]
 
 
 def fits_word(n, d):
@@ -326,7 +331,7 @@ def run_impl(exe, lines, nproc, timeout):
             # complete result lines end with " $" (a dying process may leave a partial line)
             good = []
             for x in o.split("\n"):
-                if x.endswith(" $") and x.startswith(("R ", "I ", "CRASH", "PREPFAIL", "BAD")):
+                if x.endswith(" $") and x.startswith(("R ", "I ", "Q ", "CRASH", "PREPFAIL", "BAD")):
                     good.append(x[:-2])
                 else:
                     break
@@ -475,6 +480,13 @@ def run(ctx):
         if pi[0] == "?":
             ctx.violation("%s:no-result:%s" % (op, cls), "no result for `%s`: %s" % (l, i), dict(case=l, impl=i, how=how))
             continue
+        fl = impl_flags(ires)
+        if fl:
+            ctx.violation("%s:inconsistent-object:%s:%s" % (op, cls, "+".join(sorted(set(x.split("(")[0] for x in fl)))),
+                          "after %s the objects are inconsistent (%s): the printed fields, isWellFormed() and the value read by a "
+                          "mixed-representation operation ((x+2^80)-2^80) disagree, or a const operand changed: `%s` gives `%s`, exact %s"
+                          % (op, " ".join(fl), l, ires, want), dict(case=l, impl=i, expected=want, how=how))
+            continue
         if exp[0] == "i":
             if pi[0] != "I" or pi[1] != exp[1]:
                 ctx.violation("%s:wrong-value:%s:%s:%s" % (op, cls, sc, tag), "%s gives %s, exact %s: `%s`" % (op, ires, want, l),
@@ -502,6 +514,7 @@ def run(ctx):
             ctx.violation("hash:differs-for-equal-values:%s" % op,
                           "equal values %s hash differently: %d from `%s`, %d from `%s`" % (want, prev[0], prev[1], hsh, l),
                           dict(case=l, other=prev[1], impl=i, how=how))
+    sequence_pass(ctx, exe, h, nproc, hashes)
     if not ctx.quick:
         sanitizer_pass(ctx, fr_cc, lines, model, nproc)
     for op, vs in variant.items():
@@ -512,6 +525,256 @@ def run(ctx):
                 op, sorted(vs)[0], "the repaired code; theorem about it: " + FIXED_THEOREM[op] if "fixed" in vs
                 else "the code before the repair: only the _partial / _refuted theorems apply"))
     ctx.note("distinct values with a hash recorded: %d; correspondence mismatches: %d" % (len(hashes), nbroken))
+
+
+# ----------------------------------------------------------------------------------------------
+# operation sequences over a register file: the hidden representation state of an object (word only /
+# GMP only / word with a cached GMP copy) is varied and results of in-place operators are re-used
+# ----------------------------------------------------------------------------------------------
+HUGE = 2**80
+KMUL = 2**40 + 15
+INPLACE = ["addA", "subA", "mulA", "divA", "addC", "subC", "mulC", "divC"]
+THREE = ["add", "sub", "mul", "div", "add3", "sub3", "mul3", "div3"]
+PRIMES = ["prime", "primem", "primec", "primeq"]
+
+
+def seq_apply(vals, tok):
+    """exact semantics of one step on python Fractions; returns (extra, ok) where extra is None | ('I', int) | ('P', Fraction);
+    ok = False when the step is outside the domain (division by zero)"""
+    p = tok.split(".")
+    op = p[0]
+    a = [int(x) for x in p[1:]] + [0, 0, 0]
+    x, y, z = a[0], a[1], a[2]
+    bop = {"add": lambda u, v: u + v, "sub": lambda u, v: u - v, "mul": lambda u, v: u * v, "div": lambda u, v: u / v}
+    if op in INPLACE:
+        k = op[:3]
+        if k == "div" and vals[y] == 0:
+            return None, False
+        vals[x] = bop[k](vals[x], vals[y])
+        return None, True
+    if op in THREE:
+        k = op[:3]
+        if k == "div" and vals[z] == 0:
+            return None, False
+        vals[x] = bop[k](vals[y], vals[z])
+        return None, True
+    if op == "neg":
+        vals[x] = -vals[y]
+    elif op == "negate":
+        vals[x] = -vals[x]
+    elif op == "inv":
+        if vals[y] == 0:
+            return None, False
+        vals[x] = 1 / vals[y]
+    elif op == "floor":
+        vals[x] = F(vals[y].numerator // vals[y].denominator)
+    elif op == "ceil":
+        vals[x] = F(-((-vals[y].numerator) // vals[y].denominator))
+    elif op == "num":
+        vals[x] = F(vals[y].numerator)
+    elif op == "den":
+        vals[x] = F(vals[y].denominator)
+    elif op in ("copy", "cctor"):
+        vals[x] = vals[y]
+    elif op in ("move", "swap"):
+        vals[x], vals[y] = vals[y], vals[x]
+    elif op == "cmp":
+        return ("I", sgn(vals[x] - vals[y])), True
+    elif op == "eq":
+        return ("I", int(vals[x] == vals[y])), True
+    elif op == "lt":
+        return ("I", int(vals[x] < vals[y])), True
+    elif op == "sign":
+        return ("I", sgn(vals[x])), True
+    elif op == "isint":
+        return ("I", int(vals[x].denominator == 1)), True
+    elif op in ("prime", "primem"):
+        return ("P", vals[x]), True
+    elif op == "primec":
+        return ("I", sgn(vals[x] - HUGE)), True
+    elif op == "primeq":
+        return ("I", int(vals[x] == HUGE + F(1, 3))), True
+    else:
+        raise ValueError(tok)
+    return None, True
+
+
+def gen_sequence(rng):
+    """a random program; every value-changing step is legal for the exact values (no division by zero)"""
+    n = rng.choice([2, 3, 3, 4])
+    inits = []
+    for i in range(n):
+        k = rng.random()
+        if i and k < 0.3:
+            v = inits[rng.randrange(i)][1]                       # equal values in different objects
+        elif k < 0.75:
+            v = (ratgen.word_num(rng) if rng.random() < 0.5 else rng.randint(-12, 12), rng.choice([1, 1, 2, 3, 6, ratgen.uword_den(rng)]))
+        else:
+            v = ratgen.rational(rng)
+        inits.append((pick_mode(rng), v))
+    vals = [F(v[0], v[1]) for _, v in inits]
+    steps = []
+    nsteps = rng.randint(4, 12)
+    tries = 0
+    while len(steps) < nsteps and tries < 60:
+        tries += 1
+        k = rng.random()
+        i, j, t = rng.randrange(n), rng.randrange(n), rng.randrange(n)
+        pre = []
+        if k < 0.34:
+            op = rng.choice(INPLACE)
+            r = rng.random()
+            if r < 0.25:
+                j = i                                            # aliasing: x op= x
+            elif r < 0.45 and j != i:
+                pre = ["copy.%d.%d" % (j, i)]                    # equal operand in another object
+            elif r < 0.55 and j != i:
+                pre = ["neg.%d.%d" % (j, i)]                     # negated operand
+            tok = "%s.%d.%d" % (op, i, j)
+        elif k < 0.60:
+            tok = "%s.%d" % (rng.choice(PRIMES), i)
+        elif k < 0.74:
+            op = rng.choice(THREE)
+            if op.endswith("3") and op != "div3":
+                while t in (i, j) and n > 2:
+                    t = rng.randrange(n)
+                if t in (i, j):
+                    op = op[:3]
+            tok = "%s.%d.%d.%d" % (op, t, i, j)
+        elif k < 0.84:
+            op = rng.choice(["neg", "negate", "inv", "floor", "ceil", "num", "den"])
+            tok = "negate.%d" % i if op == "negate" else "%s.%d.%d" % (op, t, i)
+        elif k < 0.93:
+            tok = "%s.%d.%d" % (rng.choice(["copy", "cctor", "move", "swap"]), i, j)
+        else:
+            op = rng.choice(["cmp", "eq", "lt", "sign", "isint"])
+            tok = "%s.%d" % (op, i) if op in ("sign", "isint") else "%s.%d.%d" % (op, i, j)
+        trial = list(vals)
+        good = True
+        for s_ in pre + [tok]:
+            _, ok = seq_apply(trial, s_)
+            good = good and ok
+        # keep the numbers from exploding (the aim is the word/GMP boundary, not huge numbers)
+        if not good or any(abs(v.numerator) > 2**200 or v.denominator > 2**200 for v in trial):
+            continue
+        vals = trial
+        steps += pre + [tok]
+    return inits, steps
+
+
+def seq_line(inits, steps):
+    return "seq %d %s | %s" % (len(inits), " ".join("%s:%d/%d" % (m, v[0], v[1]) for m, v in inits), " ".join(steps))
+
+
+def sequence_pass(ctx, exe, h, nproc, hashes):
+    rng = ctx.rng
+    nseq = 6000 if ctx.quick else 60000
+    progs = []
+    for p in sorted(glob.glob(os.path.join(vlib.VERIF, "corpus", "C15", "*.seq"))):
+        for l in open(p):
+            l = l.split("#")[0].strip()
+            if l.startswith("seq "):
+                t = l.split()
+                n = int(t[1])
+                inits = [(x[0], tuple(int(u) for u in x[2:].split("/"))) for x in t[2:2 + n]]
+                progs.append((inits, t[3 + n:]))
+    ncorp = len(progs)
+    for _ in range(nseq):
+        progs.append(gen_sequence(rng))
+    progs = [p for p in progs if p[1]]
+    lines = [seq_line(i, s) for i, s in progs]
+    model, merr = run_model(exe, lines, nproc, 3000)
+    if model is None or len(model) != len(lines):
+        ctx.tie_broken("rat-model-run:seq", merr or "model printed %d lines for %d sequences" % (len(model), len(lines)))
+        return
+    hl = [("!" + l) if m.startswith("E ") else l for l, m in zip(lines, model)]
+    impl = run_impl(h, hl, nproc, 3000)
+    if len(impl) != len(lines):
+        ctx.tie_broken("rat-harness-run:seq", "harness printed %d lines for %d sequences" % (len(impl), len(lines)))
+        return
+    nsteps = nbroken = 0
+    for (inits, steps), l, m, i in zip(progs, lines, model, impl):
+        how = "echo '%s' | /verif/build/harness/h_rat   (dump of all registers after every step; F = mixed-representation read)" % l
+        body, _, tail = i.partition(" #")
+        flags, _, states = tail.partition(" @")
+        flags = flags.split()
+        for st in states.split():
+            ctx.count("seq-state:" + st)
+        kinds = sorted(set(s_.split(".")[0] for s_ in steps))
+        ctx.case(key=l, nontrivial=True, kind="seq:%d-steps" % len(steps),
+                 sample=dict(case=l, model=m, impl=i) if (ctx.evaluations % 1999 == 7) else None)
+        nsteps += len(steps)
+        # ---- tie: the model's dumps, exactly ----
+        if m.startswith("E "):
+            agrees = False        # the generator only emits steps inside the domain: the model must not fail
+        else:
+            agrees = body == m and flags == ["ok"]
+        if not agrees:
+            nbroken += 1
+            if nbroken <= 10:
+                ctx.tie_broken("rat-correspondence:seq", "sequence `%s`: model `%s` implementation `%s`" % (l, m[:600], i[:900]), dict(case=l))
+        # ---- property level: exact values by python fractions, step by step ----
+        if i.startswith("CRASH") or not i.startswith("Q "):
+            ctx.violation("seq:crash-or-no-result", "the sequence `%s` gives `%s`" % (l, i[:200]), dict(case=l, impl=i, how=how))
+            continue
+        vals = [F(v[0], v[1]) for _, v in inits]
+        dumps = body[2:].split(" ; ")
+        if len(dumps) != len(steps) + 1:
+            ctx.violation("seq:crash-or-no-result", "the sequence `%s` gives %d dumps for %d steps" % (l, len(dumps), len(steps)),
+                          dict(case=l, impl=i, how=how))
+            continue
+        bad = None
+        for k, (tok, dump) in enumerate(zip(steps, dumps)):
+            extra, _ = seq_apply(vals, tok)
+            d = dump.split()
+            op = tok.split(".")[0]
+            if extra is not None:
+                got = d.pop(0) if d else ""
+                want = "I:%d" % extra[1] if extra[0] == "I" else "P:%d/%d" % (extra[1].numerator, extra[1].denominator)
+                if got != want:
+                    bad = ("%s:wrong-%s" % (op, "value" if extra[0] == "I" else "mixed-read"), k, tok, "prints %s, exact %s" % (got, want))
+                    break
+            if len(d) != len(vals):
+                bad = ("%s:no-result" % op, k, tok, "dump `%s`" % dump)
+                break
+            for ri, (f, v) in enumerate(zip(d, vals)):
+                try:
+                    w, nd, hs = f.split(":")
+                    nn, dd = (int(u) for u in nd.split("/"))
+                    hs = int(hs)
+                except ValueError:
+                    bad = ("%s:no-result" % op, k, tok, "register %d prints `%s`" % (ri, f))
+                    break
+                if dd < 1 or F(nn, dd) != v:
+                    bad = ("%s:wrong-value" % op, k, tok, "register %d holds %s, exact %s" % (ri, nd, v))
+                    break
+                if not canonical(("R", w, nn, dd, hs)):
+                    bad = ("%s:non-canonical" % op, k, tok, "register %d holds %s as `%s`" % (ri, v, f))
+                    break
+                prev = hashes.setdefault(v, (hs, l))
+                if prev[0] != hs:
+                    bad = ("hash:differs-for-equal-values", k, tok, "value %s hashes to %d here and to %d in `%s`" % (v, hs, prev[0], prev[1]))
+                    break
+            if bad:
+                break
+            fl = [x for x in flags if x.startswith("%d." % k)]
+            if fl:
+                bad = ("%s:inconsistent-object" % op, k, tok, "isWellFormed() is false after the step (%s): the word part and the GMP part "
+                       "flagged valid differ" % " ".join(fl))
+                break
+        if not bad:
+            fin = dumps[-1].split()
+            want = ["F"] + ["P:%d/%d" % (v.numerator, v.denominator) for v in vals]
+            if fin != want or any(x.startswith("F.") for x in flags):
+                last = steps[-1].split(".")[0]
+                bad = ("seq-final:stale-or-wrong-mixed-read", len(steps), "final read",
+                       "reading every register through (x+2^80)-2^80 gives `%s`, exact `%s` (%s)" % (" ".join(fin), " ".join(want), " ".join(flags)))
+        if bad:
+            sig, k, tok, what = bad
+            ctx.violation("seq:" + sig, "operation sequence, step %d (%s): %s — `%s`" % (k, tok, what, l),
+                          dict(case=l, impl=i, step=k, how=how))
+    ctx.note("operation sequences: %d (+%d corpus) programs, %d steps, every register compared after every step; mismatches with the model: %d"
+             % (len(progs) - ncorp, ncorp, nsteps, nbroken))
 
 
 def sanitizer_pass(ctx, fr_cc, lines, model, nproc):
